@@ -40,3 +40,17 @@ package redisemu
 //@ requires !mutated && !bumped && !removedKey
 //@ modifies *
 //@ ensures [C02] negative: old(istype(args["offset"], int64) && unbox(args["offset"], int64) < 0) ==> istype(output.data, respErrorString) && !mutated
+
+// C02: GETRANGE returns exactly the redis-defined range (spec functions in zz_spec_verif.go)
+//@ func fnGetRange
+//@ prop C02
+//@ safetyprop C13
+//@ mode int
+//@ requires ctx != nil && ctx.dsc != nil && dscOK(ctx.dsc)
+//@ requires [C08,C16] unlocked: !held && lockMode(ctx.dsc)
+//@ requires !mutated && !bumped && !removedKey
+//@ modifies *
+//@ ensures internal [C02] clamp.empty: valid == VALUE_EXISTS && specRangeEmpty(len(str), int(start64), int(end64)) ==> output.data == respBulkString("")
+//@ ensures internal [C02] clamp.range: valid == VALUE_EXISTS && !specRangeEmpty(len(str), int(start64), int(end64)) ==> output.data == respBulkString(str[specRangeFrom(len(str), int(start64)) : specRangeLast(len(str), int(end64))+1])
+//@ ensures internal [C02] wrongtype: valid == VALUE_WRONG_TYPE ==> output.data == wrongTypeError
+//@ ensures internal [C02] missing: valid != VALUE_WRONG_TYPE && valid != VALUE_EXISTS ==> output.data == nil
